@@ -299,8 +299,8 @@ func deepChain(t *rapid.T, m *Model) {
 
 var (
 	gAltTerm = []string{"User", "R", "u-1", "x.y", "USER", "E", "union", "exclusion", "t1", "t01", "team-", "a--b", "service-account"}
-	gAltObj  = []string{"Repo", "Role", "R", "Doc", "DOC", "d/1", "RR", "Rx-1", "union", "intersection", "exclusion", "group", "subgroup", "Release", "o1", "o01", "org-"}
-	gAltRel  = []string{"A", "R", "Ra", "a-b", "a.b", "B", "r/1", "Rel", "member", "members", "s1", "s01", "view-"}
+	gAltObj  = []string{"Repo", "Role", "R", "Doc", "DOC", "d/1", "RR", "Rx-1", "union", "intersection", "exclusion", "group", "subgroup", "Release", "o1", "o01", "org-", "català", "查看者", "Århus"}
+	gAltRel  = []string{"A", "R", "Ra", "a-b", "a.b", "B", "r/1", "Rel", "member", "members", "s1", "s01", "view-", "lectură", "閲覧"}
 )
 
 // renameGraphModel renames some types and relations consistently everywhere they are used. Names that differ from
